@@ -155,7 +155,7 @@ E16M = _o('oracle: MergeReversedDictsIdentities component structure', 'e16', 400
           'pairs of well-formed identity lists: every identity indexed, equal final index iff connected, union descriptions', ['c16merge'])
 E19 = _o('oracle: TicksSinceStart through Consume (floor, clamp, registry)', 'e16', 4000, 200000,
          'random commit-time sequences and five tick sizes', ['c19'])
-E11 = _o('oracle: FileDiff output is a canonical edit script with consistent counts', 'e16', 4000, 200000,
+E11 = _o('oracle: FileDiff output is a canonical edit script with consistent counts', 'e16', 160000, 3000000,
          'random blob pairs (CRLF, invalid UTF-8, duplicates, no final newline, cleanup on/off): counts, identical equal runs, shape', ['c11'])
 E18 = _o('oracle: devs / couples / summary merges conserve totals', 'e18', 300, 20000,
          'pairs of results of real runs on synthetic repositories with partially overlapping files and identities')
